@@ -42,7 +42,7 @@ Definition versions_of (c : chg) : list Z :=
   map (fun i => g_lo c + Z.of_nat i) (seq 0 (Z.to_nat (g_hi c - g_lo c + 1))).
 
 (* what the bookkeeping knows: per (actor, version) either everything or a set of seqs *)
-Inductive vstate := Whole | Part (p : iset).
+Inductive vstate := Whole | Part (p : iset) (last : Z).
 Definition book := list (key * vstate).
 
 Fixpoint bget (k : key) (b : book) : option vstate :=
@@ -57,9 +57,9 @@ Definition known (b : book) (c : chg) : bool :=
     match bget (g_actor c, v) b with
     | None => false
     | Some Whole => true
-    | Some (Part p) =>
+    | Some (Part p last) =>
       match g_seqs c with
-      | None => true
+      | None => match gaps 0 last p with [] => true | _ => false end   (* an empty changeset is news for an incomplete partial *)
       | Some (s, e) => match gaps s e p with [] => true | _ => false end
       end
     end) (versions_of c).
@@ -67,15 +67,15 @@ Definition known (b : book) (c : chg) : bool :=
 (* a successfully processed change *)
 Definition store_one (b : book) (c : chg) : book :=
   match g_seqs c with
-  | None => fold_left (fun b v => ((g_actor c, v), Whole) :: b) (versions_of c) b
+  | None => fold_left (fun b v => ((g_actor c, v), Whole) :: b) (versions_of c) b   (* cleared: a partial is dropped *)
   | Some (s, e) =>
     let k := (g_actor c, g_lo c) in
     let complete := (s =? 0) && (e =? g_last c) in     (* Changeset::is_complete *)
     match bget k b with
     | Some Whole => b
-    | Some (Part p) => if complete then b                (* applied, the partial entry stays as it is *)
-                       else (k, Part (ins s e p)) :: b
-    | None => if complete then (k, Whole) :: b else (k, Part [(s, e)]) :: b
+    | Some (Part p last) => if complete then (k, Whole) :: b     (* applied as a whole: the partial is dropped *)
+                            else (k, Part (ins s e p) last) :: b
+    | None => if complete then (k, Whole) :: b else (k, Part [(s, e)] (g_last c)) :: b
     end
   end.
 
@@ -96,8 +96,10 @@ Definition seen_dup (s : seen_t) (c : chg) : bool :=
     | Some ss => match gaps a b ss with [] => true | _ => false end
     | None => false
     end
-  | None => forallb (fun v => match sget (g_actor c, v) s with Some _ => true | None => false end)
-                    (versions_of c)
+  | None =>
+    (* a duplicate only if an empty changeset -- and no chunk of the version -- was recorded *)
+    forallb (fun v => match sget (g_actor c, v) s with Some [] => true | _ => false end)
+            (versions_of c)
   end.
 
 (* forget_seen *)
